@@ -768,3 +768,219 @@ Proof.
   split; [exact (inv_charged_stored cfg _ HI)|]. exact (used_nonneg cfg _ HI).
 Qed.
 
+
+(** * Part C: properties of single micro steps under every interleaving *)
+From CacheD.proofs Require Import ApiProofs HistoryProofs.
+
+Lemma wstep_base_eq : forall cfg ws e,
+  wstep cfg ws (WBase e) =
+  if (match e with
+      | ECall tid _ _ | ERun tid => negb (amem tid (ups ws))
+      | EWorker _ => match wpending ws with Some _ => false | None => true end
+      | _ => true
+      end)
+  then let '(s', ret) := step cfg (base ws) e in (with_base ws s', ret) else (ws, [6]).
+Proof. reflexivity. Qed.
+
+(** the store after a micro step of a caller: unchanged, or one key soft-marked, or (put_or_update) one entry updated in
+    place keeping its soft-delete flag *)
+Lemma soft_mark_hid : forall k0 k s e, alookup k (store s) = Some e -> e_soft e = true -> hid k (soft_mark k0 s).
+Proof.
+  intros k0 k s e Hl Hs. unfold soft_mark. destruct (alookup k0 (store s)) as [e0|] eqn:E0.
+  - unfold hid. cbn [store set_store]. right. destruct (Z.eq_dec k k0) as [He|Hne].
+    + subst k0. rewrite alookup_aset_eq. eexists; split; [reflexivity|reflexivity].
+    + rewrite alookup_aset_neq by exact Hne. exists e. split; assumption.
+  - right. exists e. split; assumption.
+Qed.
+
+Lemma do_send_store : forall cfg tid c s, store (fst (do_send cfg tid c s)) = store s.
+Proof.
+  intros cfg tid c s. unfold do_send.
+  destruct (worker s); [destruct (Z.of_nat (length (queue s)) <? c_queue cfg)| | |]; reflexivity.
+Qed.
+
+Lemma upsert_half1_hid : forall cfg k0 v w ttl rm s k e,
+  alookup k (store s) = Some e -> e_soft e = true ->
+  match upsert_half1 cfg k0 v w ttl rm s with inl (s', _) => hid k s' | inr (s', _) => hid k s' end.
+Proof.
+  intros cfg k0 v w ttl rm s k e Hl Hs. unfold upsert_half1.
+  assert (Hsame : hid k s) by (right; exists e; split; assumption).
+  destruct (alookup k0 (store s)) as [e0|] eqn:E0; [|exact Hsame].
+  assert (Hupd : forall x val, hid k (set_store s (aset k0 {| e_val := val; e_id := e_id e0; e_exp := x; e_soft := e_soft e0 |} (store s)))).
+  { intros x val. unfold hid. cbn [store set_store]. right. destruct (Z.eq_dec k k0) as [He|Hne].
+    - subst k0. rewrite alookup_aset_eq. eexists; split; [reflexivity|]. cbn [e_soft].
+      rewrite Hl in E0. inversion E0; subst. exact Hs.
+    - rewrite alookup_aset_neq by exact Hne. exists e. split; assumption. }
+  destruct rm; [apply Hupd|]. destruct ttl as [t|]; [|apply Hupd].
+  destruct (calc_expiry (now s) t); [apply Hupd|exact Hsame].
+Qed.
+
+(* STATEMENT (C04 under every interleaving of caller micro steps): once the entry of k is soft-deleted (delete(k) passed
+   its `delete.marked` point), no micro step of any caller (puts, deletes, reads, put_or_update's first half, shutdown
+   stages) and no whole event of the atomic model makes it readable again: it stays hidden until it is physically removed *)
+Lemma micro_soft_deleted_stays_hidden : forall cfg ms ev k e,
+  (forall e0, ev = MWin e0 -> exists b, e0 = WBase b) -> (forall orc, ev <> MWorker1 orc) -> ev <> MWorker2 ->
+  alookup k (store (mbase ms)) = Some e -> e_soft e = true ->
+  hid k (mbase (fst (mstep cfg ms ev))).
+Proof.
+  intros cfg ms ev k e Hwin Hw1 Hw2 Hl Hs.
+  assert (Hsame : hid k (mbase ms)) by (right; exists e; split; assumption).
+  destruct ev as [e0|tid r idxs|tid idxs|orc|].
+  - destruct (Hwin e0 eq_refl) as [b ->]. cbn [mstep].
+    destruct (mwin_enabled ms (WBase b)); [|exact Hsame].
+    rewrite wstep_base_eq.
+    destruct (match b with
+              | ECall tid _ _ | ERun tid => negb (amem tid (ups (win ms)))
+              | EWorker _ => match wpending (win ms) with Some _ => false | None => true end
+              | _ => true end); [|exact Hsame].
+    pose proof (soft_deleted_stays_hidden cfg (base (win ms)) b k e Hl Hs) as H. cbv zeta in H.
+    unfold step_state in H. destruct (step cfg (base (win ms)) b) as [s' ret]. exact H.
+  - cbn [mstep]. unfold menter. destruct (negb (caller_free ms tid)); [exact Hsame|].
+    destruct (shut (mbase ms) || negb (micro_request r) || early_panic cfg r).
+    + destruct (call cfg tid r idxs (mbase ms)) as [s' ret] eqn:E. cbn [fst mbase with_mbase win with_base base].
+      eapply call_hid; eassumption.
+    + destruct r; exact Hsame.
+  - cbn [mstep]. unfold mstepc. destruct (alookup tid (cps ms)) as [p|]; [|exact Hsame].
+    destruct p as [r|k0 v w ttl| |h obs|n].
+    + destruct r; try exact Hsame;
+        try (unfold put_check; repeat match goal with |- context [if ?b then _ else _] => destruct b end; exact Hsame).
+      * pose proof (upsert_half1_hid cfg k0 v w ttl rm (mbase ms) k e Hl Hs) as H.
+        destruct (upsert_half1 cfg k0 v w ttl rm (mbase ms)) as [[s' u]|[s' ret]]; exact H.
+      * unfold hid. cbn [fst mbase set_cp win with_base base park store set_blocked].
+        exact (soft_mark_hid k0 k (mbase ms) e Hl Hs).
+      * unfold read_lookup. destruct (lookup_alive k0 (mbase ms)); exact Hsame.
+      * unfold read_body. destruct (read_one cfg k0 idxs (mbase ms)) as [[[v s'] [|i l]]|] eqn:Hr; try exact Hsame.
+        unfold hid. cbn [fst mbase end_cp win with_base base].
+        destruct (read_one_frame cfg k0 idxs _ _ _ _ Hr) as (Hst & _). rewrite Hst. exact Hsame.
+      * unfold read_lookup. destruct (lookup_alive k0 (mbase ms)); exact Hsame.
+      * unfold read_body. destruct (read_one cfg k0 idxs (mbase ms)) as [[[v s'] [|i l]]|] eqn:Hr; try exact Hsame.
+        unfold hid. cbn [fst mbase end_cp win with_base base].
+        destruct (read_one_frame cfg k0 idxs _ _ _ _ Hr) as (Hst & _). rewrite Hst. exact Hsame.
+    + exact Hsame.
+    + destruct (alookup tid (blocked (mbase ms))) as [[c| |]|]; try exact Hsame.
+      pose proof (do_send_store cfg tid c (set_blocked (mbase ms) (aremove tid (blocked (mbase ms))))) as Hst.
+      destruct (do_send cfg tid c (set_blocked (mbase ms) (aremove tid (blocked (mbase ms))))) as [s' ret].
+      unfold hid. cbn [fst mbase end_cp win with_base base] in *. rewrite Hst. exact Hsame.
+    + destruct idxs as [|i [|j l]]; try exact Hsame.
+      destruct (pool_add cfg i h (mbase ms)) as [s'|] eqn:Hpa; [|exact Hsame].
+      unfold hid. cbn [fst mbase end_cp win with_base base].
+      destruct (pool_add_frame cfg i h _ _ Hpa) as (Hst & _). rewrite Hst. exact Hsame.
+    + unfold shutdown_stage.
+      repeat match goal with |- context [if ?b then _ else _] => destruct b end;
+        try exact Hsame;
+        try (destruct (worker (mbase ms)); repeat match goal with |- context [if ?b then _ else _] => destruct b end; exact Hsame);
+        try (destruct (consumer (mbase ms)); repeat match goal with |- context [if ?b then _ else _] => destruct b end; exact Hsame).
+      left. reflexivity.
+  - exfalso. eapply Hw1. reflexivity.
+  - exfalso. apply Hw2. reflexivity.
+Qed.
+
+Lemma frameR_shut : forall s s', frameR s s' -> shut s' = shut s.
+Proof. intros s s' F. unfold frameR in F. intuition. Qed.
+
+Lemma do_send_shut : forall cfg tid c s, shut (fst (do_send cfg tid c s)) = shut s.
+Proof.
+  intros cfg tid c s. unfold do_send.
+  destruct (worker s); [destruct (Z.of_nat (length (queue s)) <? c_queue cfg)| | |]; reflexivity.
+Qed.
+
+(* STATEMENT (C13, shutdown in stages): the flag never goes down again, whatever micro step of whatever caller (puts,
+   deletes, reads, put_or_update's first half, every stage of shutdown) or whole event of the atomic model follows *)
+Lemma micro_shut_stable : forall cfg ms ev,
+  (forall e0, ev = MWin e0 -> exists b, e0 = WBase b) -> (forall orc, ev <> MWorker1 orc) -> ev <> MWorker2 ->
+  shut (mbase ms) = true -> shut (mbase (fst (mstep cfg ms ev))) = true.
+Proof.
+  intros cfg ms ev Hwin Hw1 Hw2 Hs.
+  destruct ev as [e0|tid r idxs|tid idxs|orc|].
+  - destruct (Hwin e0 eq_refl) as [b ->]. cbn [mstep].
+    destruct (mwin_enabled ms (WBase b)); [|exact Hs].
+    rewrite wstep_base_eq.
+    destruct (match b with
+              | ECall tid _ _ | ERun tid => negb (amem tid (ups (win ms)))
+              | EWorker _ => match wpending (win ms) with Some _ => false | None => true end
+              | _ => true end); [|exact Hs].
+    pose proof (shut_stable cfg (base (win ms)) b Hs) as H. unfold step_state in H.
+    destruct (step cfg (base (win ms)) b) as [s' ret]. exact H.
+  - cbn [mstep]. unfold menter. destruct (negb (caller_free ms tid)); [exact Hs|].
+    rewrite Hs. cbn [orb].
+    pose proof (shut_stable cfg (mbase ms) (ECall tid r idxs) Hs) as H. unfold step_state in H. cbn [step] in H.
+    destruct (call cfg tid r idxs (mbase ms)) as [s' ret]. exact H.
+  - cbn [mstep]. unfold mstepc. destruct (alookup tid (cps ms)) as [p|]; [|exact Hs].
+    destruct p as [r|k0 v w ttl| |h obs|n].
+    + destruct r; try exact Hs;
+        try (unfold put_check; repeat match goal with |- context [if ?b then _ else _] => destruct b end; exact Hs).
+      * unfold upsert_half1. destruct (alookup k (store (mbase ms))); [|exact Hs].
+        destruct rm; [exact Hs|]. destruct ttl as [t|]; [|exact Hs]. destruct (calc_expiry (now (mbase ms)) t); exact Hs.
+      * unfold soft_mark. destruct (alookup k (store (mbase ms))); exact Hs.
+      * unfold read_lookup. destruct (lookup_alive k (mbase ms)); exact Hs.
+      * unfold read_body. destruct (read_one cfg k idxs (mbase ms)) as [[[v s'] [|i l]]|] eqn:Hr; try exact Hs.
+        cbn [fst mbase end_cp win with_base base].
+        rewrite (frameR_shut _ _ (InvCalls.read_one_frame cfg k idxs _ _ _ _ Hr)). exact Hs.
+      * unfold read_lookup. destruct (lookup_alive k (mbase ms)); exact Hs.
+      * unfold read_body. destruct (read_one cfg k idxs (mbase ms)) as [[[v s'] [|i l]]|] eqn:Hr; try exact Hs.
+        cbn [fst mbase end_cp win with_base base].
+        rewrite (frameR_shut _ _ (InvCalls.read_one_frame cfg k idxs _ _ _ _ Hr)). exact Hs.
+    + exact Hs.
+    + destruct (alookup tid (blocked (mbase ms))) as [[c| |]|]; try exact Hs.
+      pose proof (do_send_shut cfg tid c (set_blocked (mbase ms) (aremove tid (blocked (mbase ms))))) as Hsh.
+      destruct (do_send cfg tid c (set_blocked (mbase ms) (aremove tid (blocked (mbase ms))))) as [s' ret].
+      cbn [fst mbase end_cp win with_base base] in *. rewrite Hsh. exact Hs.
+    + destruct idxs as [|i [|j l]]; try exact Hs.
+      destruct (pool_add cfg i h (mbase ms)) as [s'|] eqn:Hpa; [|exact Hs].
+      cbn [fst mbase end_cp win with_base base].
+      rewrite (frameR_shut _ _ (InvCalls.pool_add_frame cfg i h _ _ Hpa)). exact Hs.
+    + unfold shutdown_stage.
+      repeat match goal with |- context [if ?b then _ else _] => destruct b end;
+        try exact Hs;
+        try (destruct (worker (mbase ms)); repeat match goal with |- context [if ?b then _ else _] => destruct b end; exact Hs);
+        try (destruct (consumer (mbase ms)); repeat match goal with |- context [if ?b then _ else _] => destruct b end; exact Hs).
+  - exfalso. eapply Hw1. reflexivity.
+  - exfalso. apply Hw2. reflexivity.
+Qed.
+
+(* STATEMENT (C13, shutdown in stages): from the moment the flag is up - before the Shutdown command is even queued and
+   at every later stage - a call that begins is answered on the spot exactly as the atomic model answers it (writes: the
+   shutting-down error, reads: absent / empty) and changes nothing but what that atomic call changes *)
+Lemma micro_after_flag_refused : forall cfg ms tid r idxs,
+  caller_free ms tid = true -> shut (mbase ms) = true ->
+  mstep cfg ms (MEnter tid r idxs) =
+  (with_mbase ms (fst (step cfg (mbase ms) (ECall tid r idxs))), snd (step cfg (mbase ms) (ECall tid r idxs))) /\
+  (is_write_request r -> valid_request r -> step cfg (mbase ms) (ECall tid r idxs) = (mbase ms, [2])) /\
+  (is_read_request r -> step cfg (mbase ms) (ECall tid r idxs) = (mbase ms, [5])) /\
+  (r = RShutdown -> step cfg (mbase ms) (ECall tid r idxs) = (mbase ms, [5])).
+Proof.
+  intros cfg ms tid r idxs Hfree Hs.
+  destruct (caller_free_spec ms tid Hfree) as (_ & _ & Hb).
+  split.
+  - cbn [mstep step]. unfold menter. rewrite Hfree, Hs. cbn [negb orb].
+    destruct (call cfg tid r idxs (mbase ms)) as [s' ret]. reflexivity.
+  - exact (after_shutdown_refused cfg tid r idxs (mbase ms) Hs Hb).
+Qed.
+
+(** * Witnesses: the premises are satisfiable and the windows are real *)
+Definition mcfg : config :=
+  {| c_max := 100; c_counters := 16; c_shards := 2; c_queue := 8; c_pool := 1; c_buffer := 2; c_hash := 0; c_wcalc := 1;
+     c_seeds := [1; 2; 3; 4]; c_t0 := 1000000000000; c_debug := true |}.
+Definition orc0 : worker_oracle := {| o_orders := []; o_pops := []; o_bloom := [] |}.
+
+(** two callers race on one key: both pass the presence check, both draw an id, both send *)
+Definition racing_puts : list mevent :=
+  [MEnter 0 (RPutW 1 10 5) []; MEnter 1 (RPutW 1 20 7) [];
+   MStepC 0 []; MStepC 1 [];          (* put.checked, twice: the key is absent both times *)
+   MStepC 0 []; MStepC 1 [];          (* send.enter: ids 1 and 2 *)
+   MStepC 1 []; MStepC 0 [];          (* caller 1 sends first *)
+   MWin (WBase (EWorker orc0)); MWin (WBase (EWorker orc0))].
+
+(* STATEMENT (C05 / C07, the race the worker's re-check closes): both puts are queued, the one that is executed first is
+   accepted, the other is answered 'key already exists'; one entry, one charge, nothing left over *)
+Lemma racing_puts_one_wins :
+  let s := mbase (mrun mcfg racing_puts) in
+  Forall plain_micro racing_puts /\
+  acks s = [(1, Rejected KeyAlreadyExists); (0, Accepted)] /\
+  map (fun p => (fst p, e_val (snd p), e_id (snd p))) (store s) = [(1, 20, 2)] /\
+  map (fun p => (fst p, w_weight (snd p))) (weights s) = [(2, 7)] /\ used s = 7 /\ queue s = [] /\ cps (mrun mcfg racing_puts) = [].
+Proof.
+  cbv zeta. split.
+  - unfold racing_puts. repeat constructor; cbn; try lia; try discriminate; intros; discriminate.
+  - vm_compute. repeat split; reflexivity.
+Qed.
